@@ -219,10 +219,12 @@ func (v *Vue) evaluateNodeAsElement(ctx VueContext, node *html.Node, depth int) 
 	if err := v.evalVText(ctx, newNode); err != nil {
 		return nil, err
 	}
-	if err := v.evalVShow(ctx, newNode); err != nil {
+	// v-show runs after attribute evaluation so that it sees the final style
+	// attribute (interpolated and merged with :style) and display:none wins.
+	if _, err := v.evalAttributes(ctx, newNode); err != nil {
 		return nil, err
 	}
-	if _, err := v.evalAttributes(ctx, newNode); err != nil {
+	if err := v.evalVShow(ctx, newNode); err != nil {
 		return nil, err
 	}
 
